@@ -33,7 +33,7 @@ RULE += (' `race`: race-directed sweep - recording runs log every read / '
          '(thread, file:line, occurrence), and every set of up to three '
          'site rules x target thread x initial order is run (complete for '
          'the bases in RACE_FULL3 at the quick tier, capped sample of pairs '
-         'for the rest; thorough: triples for every base, capped at 150 000 '
+         'for the rest; thorough: triples for every base, capped at 60 000 '
          'per base).')
 SHRINK_LISTS = [('schedule', 'points'), ('schedule', 'rules')]
 EXPECTED_PROBES = ['old_generator_finalised_while_closing', 'stalled_writes', 'close_vs_send', 'close_vs_close', 'close_vs_loop_echo',
@@ -52,6 +52,7 @@ _PNG = {'op': 'send_ping', 'hex': b'T1-2-ping'.hex()}
 _CL = {'op': 'close', 'code': 1000, 'reason': 'bye'}
 _CL2 = {'op': 'close', 'code': 1001, 'reason': 'other'}
 _CLN = {'op': 'close', 'code': None, 'reason': ''}
+_HUGE = {'op': 'send_binary', 'fill': [b'T1-8-'.hex(), 1300000, 0x48]}
 _BIG = {'op': 'send_binary', 'hex': ('T1-9-' + 'B' * 70000).encode().hex()}
 
 
@@ -59,6 +60,9 @@ def _t(tid, op):
     op = copy.deepcopy(op)
     if 'text' in op:
         op['text'] = op['text'].replace('T1-', 'T%d-' % tid)
+    if 'fill' in op:
+        op['fill'][0] = bytes.fromhex(op['fill'][0]).replace(
+            b'T1-', b'T%d-' % tid).hex()
     if 'hex' in op and op['op'] != 'close':
         op['hex'] = bytes.fromhex(op['hex']).replace(
             b'T1-', b'T%d-' % tid).hex()
@@ -100,6 +104,10 @@ BASES = [
      'loop': ['close']},
     {'name': 'close_close_vs_loop_echo', 'threads': [[_CL, _CL2]],
      'loop': ['close']},
+    # beyond any plausible chunking / fragmentation threshold
+    {'name': 'close_vs_huge_frame', 'threads': [[_CL], [_t(2, _HUGE)]]},
+    {'name': 'loop_echo_vs_huge_frame', 'threads': [[_t(1, _HUGE)]],
+     'loop': ['close']},
     {'name': 'close_vs_text_text_loop_echo', 'threads': [[_CL], [_t(2, _TXT),
                                                                 _t(2, _BIN)]],
      'loop': ['close']},
@@ -130,7 +138,7 @@ def _race(b, tier):
             depth = 3 if base['name'] in RACE_FULL3 else 2
             cap = 40000 if depth == 3 else 1200
         else:
-            depth, cap = 3, 150000
+            depth, cap = 3, 60000
         _RACE[key] = (cands, T.race_schedules(base, cands, depth, cap))
     return _RACE[key]
 
@@ -277,12 +285,12 @@ def make_case(family, i, rng, tier):
         return case
     if family == 'race':
         for b in range(len(BASES)):
-            scheds = _race(b, tier)[1]
+            cands, scheds = _race(b, tier)
             if i < len(scheds):
                 break
             i -= len(scheds)
         case = copy.deepcopy(BASES[b])
-        case['schedule'] = copy.deepcopy(scheds[i])
+        case['schedule'] = T.race_schedule(cands, scheds[i])
         return case
     if family == 'base_random':
         # seeded random-walk / PCT schedules over the hand-written bases
@@ -446,7 +454,10 @@ def execute(case):
     dp = peer.DeflatePeer(15, 15, False, bool(case.get('cnct')))
     seen = []
     inflate_failed = False
-    for f in frames:
+    # (a tree that writes a message in fragments: what was accepted is
+    # compared with the joined message; fragmenting as such is C03's business)
+    from .C11 import _reassemble
+    for f in _reassemble(frames)[0]:
         p = f.payload
         if f.rsv1:
             try:
